@@ -122,5 +122,3 @@ func showInputs(ins []ReplayInput) string {
 	}
 	return strings.Join(parts, " ")
 }
-
-func cmdCheck(argv []string) int { return 2 }
